@@ -48,23 +48,29 @@ def restrict_rules(chk, P, E):
         if chk.need(bool(words), "R-GUARD: %s / %s not found" % (typ, flag)):
             guards.unreachable_under(chk, P, fn, "topology.c", [{"obj->type": tv, "flags": w} for w in words], "unlink_and_free_single_object", "R-GUARD", "keep-unless-flag",
                                      "with obj->type == %s and %s unset (all %d such flag words) the removal of the object is unreachable" % (typ, flag, len(words)))
-        def frees(f2):
-            for c in f2.calls(("hwloc_free_object_siblings_and_children",)):
+    # I/O and Misc children are dropped only without their ADAPT flag: every drop site of topology.c (in the walkers or in a helper
+    # extracted from them), dominated in its own function by the failed test of an ADAPT flag
+    def frees(f2):
+        for c in f2.calls(("hwloc_free_object_siblings_and_children",)):
+            a0 = strip(args(c)[0])
+            if a0 is not None and a0["k"] == "Member" and a0["f"] in ("io_first_child", "misc_first_child"):
                 yield c, "drop"
-        guards.dominated(chk, P, fn, "topology.c", frees,
-                         lambda st: any(x[0] == "F" and ("HWLOC_RESTRICT_FLAG_ADAPT_IO" in x[1] or "HWLOC_RESTRICT_FLAG_ADAPT_MISC" in x[1]) for x in st),
-                         "R-GUARD", "I/O or Misc children are dropped only when the corresponding ADAPT flag is not given", min_inst=2)
-
-
-    chk.rule("R-ARITY", "a function that keeps the arity counters in step with the child lists it splices does so for every splice (sibling agreement inside hwloc_filter_levels_keep_structure: 6 splices)")
-    nar = setkind.arity_pairing(chk, P, ["topology.c"])
-    chk.floor("R-ARITY", "splices in arity-maintaining functions", nar, 4)
+    ndrop = 0
+    for g in guards.functions_calling(P, "topology.c", "hwloc_free_object_siblings_and_children"):
+        if not any(True for _ in frees(g)):
+            continue
+        ndrop += guards.dominated(chk, P, g.name, "topology.c", frees,
+                                  lambda st: any(x[0] == "F" and ("HWLOC_RESTRICT_FLAG_ADAPT_IO" in x[1] or "HWLOC_RESTRICT_FLAG_ADAPT_MISC" in x[1]) for x in st),
+                                  "R-GUARD", "I/O or Misc children are dropped only when the corresponding ADAPT flag is not given", min_inst=1)
+    chk.floor("R-GUARD", "child-list drop sites in topology.c", ndrop, 2)
     chk.rule("R-FREERESET", "a child list released by hwloc_free_object_siblings_and_children(x->LIST) is reset (`x->LIST = NULL`, the SAME list head) on every path: "
              "the dying object's remaining lists are re-attached to its parent afterwards, a stale head would link freed objects")
     nfr = 0
-    for fn in ("restrict_object_by_cpuset", "restrict_object_by_nodeset"):
-        nfr += guards.free_then_reset(chk, P, fn, "topology.c", ("hwloc_free_object_siblings_and_children",), min_inst=1)
-    chk.floor("R-FREERESET", "released child lists in the restrict walkers", nfr, 3)
+    for g in guards.functions_calling(P, "topology.c", "hwloc_free_object_siblings_and_children"):
+        if g.name in ("hwloc_free_object_siblings_and_children", "unlink_and_free_object_and_children"):
+            continue
+        nfr += guards.free_then_reset(chk, P, g.name, "topology.c", ("hwloc_free_object_siblings_and_children",), min_inst=1)
+    chk.floor("R-FREERESET", "released child lists in topology.c", nfr, 2)
 
 
 def run(chk, tier):
